@@ -8,7 +8,8 @@ any composition, at any nesting depth, of
   * permuting the declarations of a struct literal,
   * commuting / re-associating / duplicating the operands of `&`, adding `& _`,
   * splitting a field `l: a & b` into the two declarations `l: a`, `l: b` (or merging),
-  * wrapping an expression as the only embedding of a struct literal `{ e }`.
+  * wrapping an expression as the only embedding of a struct literal `{ e }`
+(list elements may be rearranged inside, but the element order of a list is significant).
 Core Lean only.
 -/
 import CueVerif.Model.Core
@@ -29,6 +30,10 @@ inductive Rearr : Expr → Expr → Prop where
   /-- congruence: rearranging an embedded expression at any position -/
   | embed_congr (pre post : List Decl) {a a' : Expr} : Rearr a a' →
       Rearr (structL (pre ++ embed a :: post)) (structL (pre ++ embed a' :: post))
+  /-- congruence: rearranging an element of a list literal at any position (the order of the
+  elements themselves is of course significant) -/
+  | list_congr (pre post : List Expr) {a a' : Expr} : Rearr a a' →
+      Rearr (listL (pre ++ a :: post)) (listL (pre ++ a' :: post))
   /-- declaration order -/
   | perm {ds ds' : List Decl} : ds.Perm ds' → Rearr (structL ds) (structL ds')
   /-- conjunct order -/
